@@ -342,4 +342,257 @@ Section HB.
     - exists t1, LUnlock, t2, LLock. repeat split; auto.
     - exists t2, LLock, t2, a2. repeat split; auto.
   Qed.
+
+  (* ---------------------------------------------------------------- the caller's reads *)
+  Lemma ph_mono t s s' l : step c t s = Some (s', l) -> ph s' <= ph s /\ (l = LMainRead -> t = 0 /\ ph s = 5 \/ ph s <> 5 /\ ph s' < ph s).
+  Proof.
+    intros H. unfold step in H. destruct (panicked s); [discriminate|]. unfold ph.
+    destruct t as [|[|[|k]]].
+    - unfold step_main in H. destruct (mainpc s) as [|a pc] eqn:Em; [discriminate|].
+      destruct a; simpl in H;
+        try (destruct (wg s)); try (destruct (eclosed s)); try (destruct (sclosed s));
+        try (destruct (buf s)); try (destruct (closed s)); try (destruct (ebuf s)); try (destruct (sbuf s));
+        try discriminate; inversion H; subst; clear H; simpl; rewrite ?Em; simpl;
+        try rewrite (ok_outer c Hok); simpl; (split; [lia|]); intros E; try discriminate E.
+      all: destruct (Nat.eq_dec (List.length pc) 4); [left; split; auto; lia|right; lia].
+    - unfold step_prod in H. destruct (pend s) as [|[b|] p].
+      + destruct (closed s); [discriminate|]. inversion H; subst; simpl. split; [lia|discriminate].
+      + destruct (c_select c || ppolled s).
+        * destruct (List.length (buf s) <? c_ccap c); [|discriminate]. inversion H; subst; simpl. split; [lia|discriminate].
+        * destruct (cancelled s); inversion H; subst; simpl; (split; [lia|discriminate]).
+      + destruct (sclosed s); [inversion H; subst; simpl; split; [lia|discriminate]|].
+        destruct (List.length (sbuf s) <? 1); [|discriminate]. inversion H; subst; simpl. split; [lia|discriminate].
+    - unfold step_prod_cancel in H. destruct (pend s) as [|[b|] p]; try discriminate.
+      destruct (c_select c && cancelled s); [|discriminate]. inversion H; subst; simpl. split; [lia|discriminate].
+    - unfold step_worker in H. destruct (nth_error (ws s) k) as [wk|]; [|discriminate].
+      destruct wk as [stt trc tab]; simpl in H. destruct stt as [|pc cur|cur| |]; try discriminate.
+      + destruct (buf s); [destruct (closed s); [|discriminate]|]; inversion H; subst; simpl; (split; [lia|discriminate]).
+      + destruct pc as [|a pc]; [discriminate|].
+        destruct a as [| | | |[]|[]]; simpl in H; try (destruct (b_fail cur)); try (destruct (mutex s));
+          try discriminate; inversion H; subst; simpl; (split; [lia|discriminate]).
+      + destruct (eclosed s); [inversion H; subst; simpl; split; [lia|discriminate]|].
+        destruct (List.length (ebuf s) <? c_ecap c); [|discriminate]. inversion H; subst; simpl. split; [lia|discriminate].
+      + destruct (wg s); inversion H; subst; simpl; (split; [lia|discriminate]).
+  Qed.
+
+  (* a worker reaches WDone only through its wg.Done step, and never moves afterwards *)
+  Lemma worker_done_shape k s s' l :
+    step_worker c k s = Some (s', l) ->
+    exists wk, nth_error (ws s) k = Some wk /\ w_st wk <> WDone /\
+      (ws s' = ws s \/ exists wk', ws s' = set_nth k wk' (ws s) /\ (w_st wk' = WDone -> l = LWgDone)).
+  Proof.
+    intros H. unfold step_worker in H. destruct (nth_error (ws s) k) as [wk|] eqn:Hk; [|discriminate].
+    exists wk. split; auto.
+    destruct wk as [stt trc tab]; simpl in *. destruct stt as [|pc cur|cur| |]; try discriminate;
+      (split; [discriminate|]).
+    - destruct (buf s); [destruct (closed s); [|discriminate]|]; inversion H; subst; simpl; right;
+        eexists; (split; [reflexivity|]); simpl; try discriminate.
+      destruct (c_body c); simpl; discriminate.
+    - destruct pc as [|a pc]; [discriminate|].
+      destruct a as [| | | |[]|[]]; simpl in H; try (destruct (b_fail cur)); try (destruct (mutex s));
+        try discriminate; inversion H; subst; simpl; auto; right; eexists; (split; [reflexivity|]); simpl;
+        try discriminate; destruct pc; simpl; discriminate.
+    - destruct (eclosed s); [inversion H; subst; simpl; auto|].
+      destruct (List.length (ebuf s) <? c_ecap c); [|discriminate]. inversion H; subst; simpl. right.
+      eexists; split; [reflexivity|]. simpl. discriminate.
+    - destruct (wg s); inversion H; subst; simpl; auto. right. eexists; split; [reflexivity|]. auto.
+  Qed.
+
+  Record WInv (tr : list ev) (s : st) : Prop := {
+    w_done : forall k wk, nth_error (ws s) k = Some wk -> w_st wk = WDone ->
+               forall tr1 tr2 a, tr = tr1 ++ (wtid k, a) :: tr2 -> is_acc a = true ->
+                 In (wtid k, LWgDone) tr2;
+    w_noread : 5 <= ph s -> forall t, ~ In (t, LMainRead) tr;
+    w_reader : forall t, In (t, LMainRead) tr -> t = 0;
+    w_wait : ph s <= 7 -> exists tr1 tr2, tr = tr1 ++ (0, LWait) :: tr2 /\
+               (forall t a, In (t, a) tr2 -> is_acc a = false) /\
+               (forall l1 t a l2, tr1 = l1 ++ (t, a) :: l2 -> is_acc a = true -> In (t, LWgDone) l2) /\
+               (forall t, ~ In (t, LMainRead) tr1) }.
+
+  Lemma WInv_init items : WInv [] (init c items).
+  Proof.
+    constructor; simpl.
+    - intros [|?] ? ?; discriminate.
+    - intros _ t [].
+    - intros t [].
+    - unfold init, ph; simpl. rewrite (ok_inner c Hok), (ok_outer c Hok). simpl. lia.
+  Qed.
+
+  Lemma WInv_step tr s t s' l :
+    InvC s -> TInv tr s -> WInv tr s -> step c t s = Some (s', l) -> WInv (tr ++ [(t, l)]) s'.
+  Proof.
+    intros I T W H.
+    destruct (ph_mono t s s' l H) as [Hph Hread].
+    destruct W as [Wd Wn Wr Ww].
+    assert (Hacc_worker : is_acc l = true -> exists k wk, t = wtid k /\ nth_error (ws s) k = Some wk /\ 8 <= ph s).
+    { intros Ha. destruct (le_lt_dec 3 t) as [Ht|Ht].
+      - destruct t as [|[|[|k]]]; try lia. unfold step in H. rewrite (ic_np c s I) in H.
+        destruct (worker_done_shape k s s' l H) as (wk & Hk & Hnd & _).
+        exists k, wk. repeat split; auto. eapply (worker_ph c Hok); eauto.
+        unfold is_done. destruct (w_st wk); auto. congruence.
+      - destruct (nonworker_step t s s' l Ht H) as [Hns _]. rewrite (acc_sync _ Ha) in Hns. discriminate. }
+    constructor.
+    - (* w_done *)
+      intros k wk Hk Hd tr1 tr2 a E Ha.
+      destruct (le_lt_dec 3 t) as [Ht|Ht].
+      + destruct t as [|[|[|k0]]]; try lia. unfold step in H. rewrite (ic_np c s I) in H.
+        destruct (worker_done_shape k0 s s' l H) as (wk0 & Hk0 & Hnd & [Ews|(wk' & Ews & Hl)]).
+        * rewrite Ews in Hk.
+          apply snoc_split in E as [(-> & -> & E)|(b' & -> & ->)].
+          -- inversion E; subst. unfold wtid in *. assert (k = k0) by lia. subst. congruence.
+          -- apply in_or_app. left. eapply Wd; eauto.
+        * rewrite Ews in Hk. destruct (Nat.eq_dec k k0) as [->|Hne].
+          -- rewrite set_nth_same in Hk by (eapply nth_error_lt; eauto). inversion Hk; subst wk'.
+             specialize (Hl Hd). subst l.
+             apply snoc_split in E as [(-> & -> & E)|(b' & -> & ->)]; [inversion E; subst; discriminate|].
+             apply in_or_app. right. now left.
+          -- rewrite set_nth_other in Hk by auto.
+             apply snoc_split in E as [(-> & -> & E)|(b' & -> & ->)]; [inversion E; unfold wtid in *; lia|].
+             apply in_or_app. left. eapply Wd; eauto.
+      + destruct (nonworker_step t s s' l Ht H) as (Hns & extra & Ews & Hex).
+        apply snoc_split in E as [(-> & -> & E)|(b' & -> & ->)].
+        * inversion E; subst. rewrite (acc_sync _ Ha) in Hns. discriminate.
+        * apply in_or_app. left.
+          destruct (t_who _ _ T (wtid k) a ltac:(apply in_or_app; right; now left) (acc_sync _ Ha)) as (k1 & wk1 & Ek & Hk1).
+          unfold wtid in Ek. inversion Ek; subst k1.
+          rewrite Ews in Hk. rewrite nth_error_app1 in Hk by (eapply nth_error_lt; eauto).
+          eapply Wd; eauto.
+    - (* w_noread *)
+      intros Hp t0 Hin. apply in_app_or in Hin as [Hin|[E|[]]].
+      + apply (Wn ltac:(lia) t0 Hin).
+      + inversion E; subst. destruct (Hread eq_refl) as [[_ E5]|[_ Hlt]]; try lia.
+        (* the MSort step: ph goes from 5 to 4 *)
+        clear - H E5 Hp Hok. unfold step in H. destruct (panicked s); [discriminate|].
+        unfold step_main, ph in *. destruct (mainpc s) as [|a pc] eqn:Em; [discriminate|].
+        destruct a; simpl in H;
+          try (destruct (wg s)); try (destruct (eclosed s)); try (destruct (sclosed s));
+          try (destruct (buf s)); try (destruct (closed s)); try (destruct (ebuf s)); try (destruct (sbuf s));
+          try discriminate; inversion H; subst; simpl in *; lia.
+    - (* w_reader *)
+      intros t0 Hin. apply in_app_or in Hin as [Hin|[E|[]]]; auto.
+      inversion E; subst. destruct (le_lt_dec 3 t0) as [Ht|Ht].
+      + exfalso. destruct t0 as [|[|[|k]]]; try lia. unfold step in H. rewrite (ic_np c s I) in H.
+        destruct (worker_step_shape k s s' LMainRead I H) as (wk & _ & [[_ E0]|(wk' & _ & Hl)]); [discriminate|].
+        destruct Hl as [(E0 & _)|[(E0 & _)|[(E0 & _)|(_ & _)]]]; try discriminate.
+        (* a non-sync worker label that is LMainRead: inspect the step *)
+        clear - H. unfold step_worker in H. destruct (nth_error (ws s) k) as [wk0|]; [|discriminate].
+        destruct wk0 as [stt trc tab]; simpl in H. destruct stt as [|pc cur|cur| |]; try discriminate.
+        * destruct (buf s); [destruct (closed s); [|discriminate]|]; inversion H.
+        * destruct pc as [|a pc]; [discriminate|].
+          destruct a as [| | | |[]|[]]; simpl in H; try (destruct (b_fail cur)); try (destruct (mutex s));
+            try discriminate; inversion H.
+        * destruct (eclosed s); [inversion H|]. destruct (List.length (ebuf s) <? c_ecap c); [|discriminate]. inversion H.
+        * destruct (wg s); inversion H.
+      + destruct t0 as [|[|[|?]]]; try lia; auto; exfalso; unfold step in H; rewrite (ic_np c s I) in H.
+        * unfold step_prod in H. destruct (pend s) as [|[b|] p].
+          -- destruct (closed s); [discriminate|]. inversion H.
+          -- destruct (c_select c || ppolled s).
+             ++ destruct (List.length (buf s) <? c_ccap c); [|discriminate]. inversion H.
+             ++ destruct (cancelled s); inversion H.
+          -- destruct (sclosed s); [inversion H|]. destruct (List.length (sbuf s) <? 1); [|discriminate]. inversion H.
+        * unfold step_prod_cancel in H. destruct (pend s) as [|[b|] p]; try discriminate.
+          destruct (c_select c && cancelled s); [|discriminate]. inversion H.
+    - (* w_wait *)
+      intros Hp. destruct (le_lt_dec (ph s) 7) as [Hp7|Hp8].
+      + (* already past Wait *)
+        destruct (Ww Hp7) as (tr1 & tr2 & -> & Hno & Hdone & Hnr).
+        exists tr1, (tr2 ++ [(t, l)]). split; [now rewrite <- app_assoc|]. split; [|split]; auto.
+        intros t0 a Hin. apply in_app_or in Hin as [Hin|[E|[]]]; eauto. inversion E; subst.
+        destruct (is_acc a) eqn:Ha; auto. destruct (Hacc_worker Ha) as (? & ? & _ & _ & ?). lia.
+      + (* this is the Wait step *)
+        assert (El : t = 0 /\ l = LWait /\ wg s = 0 /\ ws s' = ws s).
+        { clear - H Hp Hp8 Hok I. unfold step in H. rewrite (ic_np c s I) in H.
+          destruct t as [|[|[|k]]].
+          - unfold step_main, ph in *. destruct (mainpc s) as [|a pc] eqn:Em; [discriminate|].
+            pose proof (ic_main c s I) as Im. rewrite Em in Im.
+            unfold prog, inner_prog, outer_prog in Im; simpl in Im. suffix_cases Im; inversion Im; subst;
+              simpl in *; try lia.
+            destruct (wg s); [|discriminate]. inversion H; subst. auto.
+          - exfalso. unfold step_prod, ph in *. destruct (pend s) as [|[b|] p].
+            + destruct (closed s); [discriminate|]. inversion H; subst; simpl in *. lia.
+            + destruct (c_select c || ppolled s).
+              * destruct (List.length (buf s) <? c_ccap c); [|discriminate]. inversion H; subst; simpl in *. lia.
+              * destruct (cancelled s); inversion H; subst; simpl in *; lia.
+            + destruct (sclosed s); [inversion H; subst; simpl in *; lia|].
+              destruct (List.length (sbuf s) <? 1); [|discriminate]. inversion H; subst; simpl in *. lia.
+          - exfalso. unfold step_prod_cancel, ph in *. destruct (pend s) as [|[b|] p]; try discriminate.
+            destruct (c_select c && cancelled s); [|discriminate]. inversion H; subst; simpl in *. lia.
+          - exfalso. assert (Hs : step c (wtid k) s = Some (s', l)) by (unfold step, wtid; rewrite (ic_np c s I); exact H).
+            destruct (ph_mono _ _ _ _ Hs) as [_ _].
+            unfold step_worker, ph in *. destruct (nth_error (ws s) k) as [wk|]; [|discriminate].
+            destruct wk as [stt trc tab]; simpl in H. destruct stt as [|pc cur|cur| |]; try discriminate.
+            + destruct (buf s); [destruct (closed s); [|discriminate]|]; inversion H; subst; simpl in *; lia.
+            + destruct pc as [|a pc]; [discriminate|].
+              destruct a as [| | | |[]|[]]; simpl in H; try (destruct (b_fail cur)); try (destruct (mutex s));
+                try discriminate; inversion H; subst; simpl in *; lia.
+            + destruct (eclosed s); [inversion H; subst; simpl in *; lia|].
+              destruct (List.length (ebuf s) <? c_ecap c); [|discriminate]. inversion H; subst; simpl in *. lia.
+            + destruct (wg s); inversion H; subst; simpl in *; lia. }
+        destruct El as (-> & -> & Hwg & Ews).
+        exists tr, []. split; auto. split; [intros ? ? []|]. split.
+        * intros l1 t1 a l2 E Ha.
+          destruct (t_who _ _ T t1 a ltac:(rewrite E; apply in_or_app; right; now left) (acc_sync _ Ha)) as (k1 & wk1 & -> & Hk1).
+          eapply Wd; eauto. eapply all_done_of_wg0; eauto.
+        * apply Wn. lia.
+  Qed.
+
+  Lemma WInv_execs items tr s : execs c (init c items) tr s -> InvC s /\ TInv tr s /\ WInv tr s.
+  Proof.
+    intros E. remember (init c items) as s0 eqn:E0. induction E; subst.
+    - split; [apply InvC_init; auto|split; [apply TInv_init|apply WInv_init]].
+    - destruct (IHE eq_refl) as (I & T & W).
+      split; [eapply InvC_step; eauto|split; [eapply TInv_step; eauto|eapply WInv_step; eauto]].
+  Qed.
+
+  (** the caller's reads of rowsCount / asyncBlocks (sortBlocks) happen after every worker
+      access: worker access -po-> its wg.Done -sync-> wg.Wait -po-> the read *)
+  Theorem main_read_hb items tr s i j t1 a1 t2 :
+    execs c (init c items) tr s ->
+    nth_error tr i = Some (t1, a1) -> nth_error tr j = Some (t2, LMainRead) ->
+    is_acc a1 = true ->
+    hb tr i j.
+  Proof.
+    intros E Hi Hj Ha1.
+    destruct (WInv_execs items tr s E) as (I & T & W).
+    assert (Hin : In (t2, LMainRead) tr) by (eapply nth_error_In; eauto).
+    assert (Ht2 : t2 = 0) by (eapply w_reader; eauto). subst t2.
+    assert (Hp : ph s <= 7).
+    { destruct (le_lt_dec (ph s) 7); auto. exfalso. eapply (w_noread _ _ W); eauto. lia. }
+    destruct (w_wait _ _ W Hp) as (tr1 & tr2 & -> & Hno & Hdone & Hnr).
+    (* the read is after the Wait *)
+    assert (Hj2 : List.length tr1 < j).
+    { destruct (lt_eq_lt_dec j (List.length tr1)) as [[Hlt|Heq]|Hgt]; auto; exfalso.
+      - rewrite nth_error_app1 in Hj by auto. apply nth_error_In in Hj. eapply Hnr; eauto.
+      - subst j. rewrite nth_error_mid in Hj. discriminate. }
+    (* the access is before the Wait *)
+    assert (Hi1 : i < List.length tr1).
+    { destruct (lt_eq_lt_dec i (List.length tr1)) as [[Hlt|Heq]|Hgt]; auto; exfalso.
+      - subst i. rewrite nth_error_mid in Hi. inversion Hi; subst. discriminate.
+      - rewrite nth_error_app2 in Hi by lia.
+        destruct (i - List.length tr1) as [|n] eqn:En; [lia|]. simpl in Hi.
+        apply nth_error_In in Hi. rewrite (Hno _ _ Hi) in Ha1. discriminate. }
+    rewrite nth_error_app1 in Hi by auto.
+    apply nth_error_split_at in Hi as (l1 & l2 & -> & L1).
+    pose proof (Hdone l1 t1 a1 l2 eq_refl Ha1) as Hd. apply in_split in Hd as (m1 & m2 & ->).
+    set (tr := (l1 ++ (t1, a1) :: m1 ++ (t1, LWgDone) :: m2) ++ (0, LWait) :: tr2) in *.
+    set (pd := List.length (l1 ++ (t1, a1) :: m1)).
+    set (pw := List.length (l1 ++ (t1, a1) :: m1 ++ (t1, LWgDone) :: m2)) in *.
+    assert (Hmid : forall (pre : list ev) x post l, l = pre ++ x :: post -> nth_error l (List.length pre) = Some x)
+      by (intros ? ? ? ? ->; apply nth_error_mid).
+    assert (Hpd : nth_error tr pd = Some (t1, LWgDone)).
+    { unfold pd. apply Hmid with (post := m2 ++ (0, LWait) :: tr2).
+      unfold tr. repeat (rewrite <- ?app_assoc; simpl). reflexivity. }
+    assert (Hpw : nth_error tr pw = Some (0, LWait)).
+    { unfold pw. apply Hmid with (post := tr2). reflexivity. }
+    assert (Hi' : nth_error tr i = Some (t1, a1)).
+    { rewrite <- L1. apply Hmid with (post := m1 ++ (t1, LWgDone) :: m2 ++ (0, LWait) :: tr2).
+      unfold tr. repeat (rewrite <- ?app_assoc; simpl). reflexivity. }
+    assert (Lens : i < pd /\ pd < pw).
+    { unfold pd, pw. rewrite <- L1. repeat (rewrite app_length; simpl). unfold ev in *. lia. }
+    destruct Lens as (H1 & H2).
+    apply t_trans with pd; [|apply t_trans with pw]; apply t_step; (split; [assumption|]).
+    - exists t1, a1, t1, LWgDone. repeat split; auto.
+    - exists t1, LWgDone, 0, LWait. repeat split; auto.
+    - exists 0, LWait, 0, LMainRead. repeat split; auto.
+  Qed.
 End HB.
